@@ -185,10 +185,17 @@ package config
 // integers as int64 or uint64, msgpack floats as float32 or float64.
 //@ spec cfgIsNumeric(v any) bool := isInt64(v) || isInt(v) || isUint64(v) || isFloat64(v) || isFloat32(v)
 //@ spec cfgNumOf(v any) float64 := ite(isFloat64(v) || isFloat32(v), anyFloat(v), toReal(anyInt(v)))
+// a whole number reads as its decimal integer whatever its size; any other number in plain decimal notation
+//@ spec cfgNumText(x float64) string := ite(x == math.Trunc(x) && math.Abs(x) < 18446744073709551616.0, strconv.FormatFloat(x, 'f', 0, 64), strconv.FormatFloat(x, 'f', -1, 64))
+//@ contract config.formatFloat inline
 //@ contract config.convertToString props C09
 //@   arith math
-// integers up to 2^53 in magnitude are the ones a float64 carries exactly
-//@   domain[exactly-representable-integers] isInt64(v) || isInt(v) || isUint64(v) ==> -9007199254740992 <= anyInt(v) && anyInt(v) <= 9007199254740992
-//@   ensures[a-number-formats-by-value-whatever-its-type] cfgIsNumeric(v) ==> result == strconv.FormatFloat(cfgNumOf(v), 'f', -1, 64)
+//@   split isString(v)
+//@   split isInt64(v)
+//@   split isInt(v)
+//@   split isUint64(v)
+//@   split isFloat64(v)
+//@   split isFloat32(v)
+//@   ensures[a-number-formats-by-value-whatever-its-type] cfgIsNumeric(v) ==> result == cfgNumText(cfgNumOf(v))
 //@   ensures[a-string-is-itself] isString(v) ==> result == anyString(v)
 //@   modifies nothing
